@@ -18,8 +18,8 @@ RULE = ('exhaustive small scope (recording length x window length x all sorted s
         '(raw only / store only / both / neither, store written by export_waveforms on the model traces or by '
         'save_spikes_subset_waveforms, 1-3 raw files, unmapped raw channels, int16/float32/float64 recordings, '
         '4 spike_times dtypes, ids missing from the store, negative ids, channel_ids omitted; stores of one spike '
-        'and/or one channel column since phylib 7a5fdd8). Stage 3: _extract_waveform with channel_ids=None (all '
-        'channels); export_waveforms with an UNSORTED spike vector (outside the statement; clause 26); NpyWriter '
+        'and/or one channel column since phylib main 232c53c). Stage 3: _extract_waveform with channel_ids=None (all '
+        'channels); export_waveforms with an UNSORTED spike vector (outside the statement: judged by equality with the model only); NpyWriter '
         'used directly with every sequence of <= 3 chunks (row counts incl. 0) against declared first dimensions '
         '0..3, plus random sequences with a chunk of another dtype / other trailing dimensions / one dimension '
         'less (clause 27). '
@@ -35,8 +35,6 @@ CLAUSES = {
         'zeros elsewhere; ids in any order, repeated; -1 anywhere in a stored row)',
     25: 'C03_route_model* (TemplateModel.get_waveforms on a dataset directory: a store holding the queried ids -> the '
         'store look-up, otherwise raw data -> the windows at spike_samples[spike_ids])',
-    26: 'C03_iter_any_order (UNSORTED spike vector, outside the statement): the exported file holds every spike\'s '
-        'window x factor exactly once, chunk by chunk in the order of the vector',
     27: 'C03_npy_writer_iff / C03_export_bytes (NpyWriter directly): element count == declared shape and declared dtype '
         'everywhere -> np.load (plain and mmap) gives the declared shape/dtype and the appended elements in order',
 }
@@ -52,7 +50,7 @@ ASSUMES = ['spike samples are integers in [0, n_samples); the vector is sorted f
            'elsewhere, which the model also predicts); when a channel other than -1 is queried twice only equality with '
            'the model is judged (only the last occurrence receives data: C03_ex_store_dup)',
            'TemplateModel route: >= 2 spikes, window >= 2, >= 2 channels (the loader squeezes singleton dimensions of '
-           'the dataset arrays away), stores of >= 1 spike x >= 1 channel column (needs phylib 7a5fdd8: '
+           'the dataset arrays away), stores of >= 1 spike x >= 1 channel column (phylib main 232c53c: '
            '_load_spike_waveforms no longer squeezes); the store is exported by phylib itself from the '
            "model's traces (export_waveforms, or save_spikes_subset_waveforms whose choice of spikes/channels is read back)",
            'values: integers x factors that are multiples of 1/2, every product exact in float64; one export case in '
@@ -183,7 +181,7 @@ TDTYPES = ['uint64', 'int64', 'uint32', 'int32']
 
 
 def _unsorted_case(i, rng, sizes, nc, cs, samples, n, backend=None):
-    """export_waveforms with the spike vector in a non-sorted order (stage 3, clause 26)"""
+    """export_waveforms with the spike vector in a non-sorted order (stage 3; outside the statement, model equality only)"""
     c = _export_case(i, rng, sizes, nc, cs, samples, n, backend=backend)
     sp = c['inp']['spikes']
     for _ in range(4):
@@ -420,7 +418,7 @@ CORPUS = [
                               'store': {'via': 'save', 'nst': 50, 'mnc': 2, 'factor': 'np2'},
                               'q_ids': [3, 0, 0], 'q_ch': [0, 1], 'qkind': 'i64'}},
     # ---- stage 3 ----
-    # a store of exactly one spike / one channel column reloaded through TemplateModel (needs phylib 7a5fdd8: the
+    # a store of exactly one spike / one channel column reloaded through TemplateModel (repaired on main by 232c53c = fix-c10b 7a5fdd8: the
     # loader squeezed the three _phy_spikes_subset arrays, get_waveforms then raised TypeError / IndexError)
     {'kind': 'model', 'inp': {'sizes': [7], 'nc': 3, 'cs': 3, 'dtype': 'int16', 'samples': [0, 2, 2, 6], 'n': 4,
                               'extra': 0, 'cmrot': 0, 'offset': 0, 'tdtype': 'uint64', 'raw': True,
@@ -1033,6 +1031,8 @@ def dist(case, obs):
             if got:
                 out.append('model.query_in_store=%s' % all(x in got[0] for x in i['q_ids']))
                 out.append('model.store_row_minus1_inner=%s' % any(-1 in r[:-1] and r[-1] != -1 for r in got[1]))
+                out.append('model.store_spikes=%s' % ('1' if len(got[0]) == 1 else '2+'))
+                out.append('model.store_columns=%s' % ('1' if got[1] and len(got[1][0]) == 1 else '2+'))
         return out
     if k == 'extract':
         out.append('extract.spikes=%s' % _bucket(len(i['samples'])))
